@@ -7,6 +7,7 @@ import (
 	"bytes"
 	"fmt"
 	"sync"
+	"time"
 
 	kanzi "github.com/flanglet/kanzi-go/v2"
 	kio "github.com/flanglet/kanzi-go/v2/io"
@@ -140,6 +141,7 @@ func init() {
 		}
 		results := e1RunAll(c, specs, 16)
 		e1Summary(c, results)
+		famRange.Timeout = 120 * time.Minute // one case = every range of one stream
 		famRange.Each(c, 0, func(emit func(rangeCase)) {
 			for _, cd := range [][2]string{{"NONE", "NONE"}, {"LZ", "HUFFMAN"}, {"BWT", "ANS0"}} {
 				for _, ck := range []uint{0, 32} {
